@@ -14,11 +14,16 @@ static int g_tok_called, g_parse_called, g_imp_called, g_tc_called, g_shadow_cal
            g_write_open, g_system_called, g_exec_called, g_wrapper_called, g_serialize_called;
 static int o_tok, o_parse, o_imp, o_tc, o_shadow, o_transpile, o_codegen;
 static int g_order_violation;
+static int o_vmresult, o_verify_ok; static unsigned char o_tag; static long long o_i64;   /* C10: outcome of the run */
 #define LATER_RAN() (g_transpile_called || g_codegen_called || g_write_open || g_system_called || g_exec_called || g_wrapper_called)
 
 #if TOOL == 1
 #define main nano_virt_main
 #include "nanovirt/main.c"
+#undef main
+#elif TOOL == 3
+#define main nano_vm_main
+#include "nanovm/main.c"
 #undef main
 #else
 #define main nanoc_main
@@ -60,15 +65,25 @@ int fprintf(FILE *f, const char *fmt, ...) { (void)f; (void)fmt; return 0; }
 int printf(const char *fmt, ...) { (void)fmt; return 0; }
 int snprintf(char *s, size_t n, const char *f, ...) { (void)f; if (n) s[0] = 0; return 0; }
 size_t fwrite(const void *p, size_t s, size_t n, FILE *f) { (void)p; (void)s; (void)f; return n; }
-#if TOOL == 1
 #include "nanovm/vm.h"
+#include "nanoisa/verifier.h"
+#if TOOL == 1 || TOOL == 3
+VmResult vm_execute(VmState *vm) { (void)vm; g_exec_called = 1; return (VmResult)o_vmresult; }
+NanoValue vm_get_result(VmState *vm) { (void)vm; static const NanoValue Z; NanoValue v = Z; v.tag = o_tag; v.as.i64 = o_i64; return v; }
+void vm_init(VmState *vm, const NvmModule *m) { vm->module = m; vm->error_msg[0] = 0; vm->cop_pid = -1; }
+NvmVerifyResult nvm_verify(const NvmModule *m) { (void)m; NvmVerifyResult r; r.ok = o_verify_ok; r.error_msg[0] = 0; return r; }
+#endif
+#if TOOL == 3
+static NvmModule g_loaded;
+NvmModule *nvm_deserialize(const uint8_t *d, uint32_t n) { (void)d; (void)n; g_loaded.import_count = 0; return (nondet_int() & 1) ? &g_loaded : NULL; }
+void *malloc(size_t n) { static char pool[64]; (void)n; return pool; }
+#endif
+#if TOOL == 1
 CodegenResult codegen_compile(ASTNode *p, Environment *e, ModuleList *m, const char *f) {
     (void)p; (void)e; (void)m; (void)f; g_codegen_called = 1; if (!o_tc) g_order_violation = 1;
     static NvmModule mod; CodegenResult r; memset(&r, 0, sizeof r); r.ok = o_codegen; r.module = o_codegen ? &mod : NULL; return r;
 }
 uint8_t *nvm_serialize(const NvmModule *m, uint32_t *sz) { (void)m; g_serialize_called = 1; static uint8_t b[4]; *sz = 4; return (nondet_int() & 1) ? b : NULL; }
-VmResult vm_execute(VmState *vm) { (void)vm; g_exec_called = 1; return (VmResult)(nondet_int() & 15); }
-void vm_init(VmState *vm, const NvmModule *m) { vm->module = m; vm->error_msg[0] = 0; }
 bool wrapper_generate(const NvmModule *m, const uint8_t *b, uint32_t s, const char *o, const char *i, const ASTNode *pr, bool v) { (void)m; (void)b; (void)s; (void)o; (void)i; (void)pr; (void)v; g_wrapper_called = 1; return nondet_int() & 1; }
 bool wrapper_generate_daemon(const uint8_t *b, uint32_t s, const char *o, bool v) { (void)b; (void)s; (void)o; (void)v; g_wrapper_called = 1; return nondet_int() & 1; }
 #endif
@@ -77,6 +92,18 @@ void harness(void) {
     o_tok = nondet_int() & 1; o_parse = nondet_int() & 1; o_imp = nondet_int() & 1; o_tc = nondet_int() & 1;
     o_shadow = nondet_int() & 1; o_transpile = nondet_int() & 1; o_codegen = nondet_int() & 1;
     int rc;
+    o_vmresult = nondet_int() & 15; o_verify_ok = nondet_int() & 1; o_tag = (unsigned char)nondet_int(); o_i64 = (long long)nondet_int() * 65536 + nondet_int();
+    const int ref_status = (o_vmresult != VM_OK) ? 1 : (o_tag == TAG_INT ? (int)o_i64 : 0);
+#if TOOL == 3
+    rc = run_standalone("p.nvm");
+    if (g_exec_called) {
+        __CPROVER_assert(o_verify_ok, "nano_vm executes only a verified module");
+        __CPROVER_assert(rc == ref_status, "C10: nano_vm's exit status is main's int result (1 on a run-time error), like nano_virt --run and the wrapper");
+        __CPROVER_assert(0, "WITNESS: accepted");
+    } else { __CPROVER_assert(rc != 0, "nano_vm fails when the module cannot be loaded/verified"); __CPROVER_assert(0, "WITNESS: rejected"); }
+    return;
+#endif
+#if TOOL != 3
 #if TOOL == 1
     static char a0[] = "nano_virt", a1[] = "in.nano", a_o[] = "-o", a_out[] = "out.bin", a_nvm[] = "out.nvm", a_run[] = "--run", a_emit[] = "--emit-nvm";
 #if ARGS == 0
@@ -103,9 +130,14 @@ void harness(void) {
     } else {
 #if TOOL == 1
         __CPROVER_assert(g_codegen_called, "an accepted program reaches code generation");
+        if (g_exec_called) {
+            __CPROVER_assert(o_verify_ok, "nano_virt --run executes only a verified module");
+            __CPROVER_assert(rc == ref_status, "C10: nano_virt --run's exit status is main's int result (1 on a run-time error)");
+        }
 #else
         __CPROVER_assert(0, "an accepted program whose shadow tests pass reaches transpilation (the driver returned without it)");
 #endif
         __CPROVER_assert(0, "WITNESS: accepted");
     }
+#endif
 }
